@@ -92,7 +92,21 @@ fn campaign(cx: &Cx, target: &str, acc: &mut Acc) -> Value {
     if std::path::Path::new(&dict).exists() {
         cmd.arg(format!("-dict={dict}"));
     }
-    let out = cmd.output();
+    // Run the campaign while keeping the watchdog's progress counter moving.
+    let log_path = format!("{artifacts}campaign.log");
+    let out = (|| -> std::io::Result<std::process::Output> {
+        let f = std::fs::File::create(&log_path)?;
+        let mut child = cmd.stdout(f.try_clone()?).stderr(f).spawn()?;
+        let status = loop {
+            if let Some(st) = child.try_wait()? {
+                break st;
+            }
+            std::thread::sleep(std::time::Duration::from_secs(1));
+            PROGRESS.fetch_add(1, std::sync::atomic::Ordering::Relaxed);
+        };
+        Ok(std::process::Output { status, stdout: std::fs::read(&log_path).unwrap_or_default(), stderr: Vec::new() })
+    })();
+    let _ = std::fs::remove_file(&log_path);
     let mut info = json!({"target": target, "runs_requested": runs});
     match out {
         Err(e) => {
